@@ -5,20 +5,37 @@ PROP = {
     "level": "proof",
     "technique": "Lean 4 proof (index invariant by induction over operations, refinement of every query to a scan of the row list) + state-machine correspondence on rows, row numbers and the complete content of every index hash table",
     "level_text": ("Kernel-checked theorems over an executable model of DataTable + DataIndexes (UniqueHash, MultiHash with its sorted "
-                   "64/128/256-row segments, AddRaw/RemoveRaw/UpdateRaw with their reject/accept phases and a fault point in every index, "
-                   "FilterRaws, index selection of Select, FindBy*Hash, Project): the index invariant is kept by every operation and every "
-                   "fault position, refused and failed operations leave the table unchanged, every query equals the brute-force scan for every "
-                   "index choice. The hash tables behind the indexes are abstracted to their C01/C13 contract (a lookup examines every entry "
-                   "inserted under the hash code searched, in any order, possibly others): hash function, visiting order, row addresses and "
+                   "64/128/256-row segments, AddRaw/RemoveRaw/UpdateRaw (both forms) with their reject/accept phases and a fault point in every index, "
+                   "FilterRaws, pvAddHashIndex, pvFill, index selection of Select, FindBy*Hash). Proved: an index invariant Inv (unique index = exactly the rows, "
+                   "each under the hash code of its current key, no two rows equal on its columns; multi index = partition of the rows into groups of equal "
+                   "keys, full segments sorted; distinct raws and addresses; row numbers = positions) holds for the empty table and is kept by EVERY operation "
+                   "of the model: TryAdd, TryInsert, TryUpdate(row), extract by number (ordered / unordered) and by reference, Remove(range), Remove(filter), "
+                   "Assign, Clear, copy constructor, AddUniqueHashIndex / AddMultiHashIndex on a table with data, index removal, for every fault position; "
+                   "each of these theorems also states the resulting row list explicitly (the row-list specification), that refused (dup) and failed "
+                   "(bad_alloc) operations leave the table unchanged, and that the conflicting row and the first conflicting index are reported. Under Inv "
+                   "every query (Select / SelectCount for every admissible index choice and any number of equalities + filter, FindByUniqueHash, "
+                   "FindByMultiHash incl. absent values, Project, ProjectDistinct = first occurrences) equals the brute-force scan. C07_history_partial composes this by induction over arbitrary "
+                   "operation lists from the empty table. The hash tables behind the indexes are abstracted to their C01/C13 contract (a lookup examines "
+                   "every entry inserted under the hash code searched, in any order, possibly others): hash function, visiting order, row addresses and "
                    "fault positions are universally quantified. The model is run against the real DataTable (dynamic and static column lists, "
                    "with and without row numbers) on every check and must reproduce every answer, the rows, the row numbers and the exact "
                    "content and raw order of every index."),
-    "level_note": ("INTERIM (work in progress): property theorems so far cover the queries (every index choice), TryAdd / TryInsert (accepted / refused / every fault position), extract / remove (number, reference, range, predicate), Assign, Clear, copy, index creation after the data and the F9 witness; whole-row update, the positive single-column update and the history theorem are not yet claimed by a theorem. Partial: the single-column update is proved correct only under the hypothesis the proof forces (the lookup of the old key "
-                   "does not meet the freshly added entry first) - without it the model exhibits open finding F9, which is proved as a witness. "
+    "level_note": ("Partial: (1) the single-column update (C07_updateCol_partial) and therefore the history theorem (C07_history_partial) are proved only "
+                   "under the hypothesis the proof forces, NoF9 (in every index over the column in which the update adds an entry, the following lookup "
+                   "of the raw's old key does not return the entry just added); the full statements are kept as defs C07_updateCol_correct / "
+                   "C07_history_full and are proved FALSE for the model (open finding F9) by C07_updateCol_F9_witness / C07_history_F9 (4-bucket table, "
+                   "one row: the update answers ok, then FindByUniqueHash misses the row). (2) Select / FindByMultiHash through a multi index are equal "
+                   "to the scan as multisets (Perm), through a unique index or a full scan as lists. (3) The row-list refinement is stated per operation "
+                   "(each C07_<op> gives the new row list); no separate abstract reference machine is defined, the history theorem carries the invariant, "
+                   "uniqueness, row numbers and the query equalities. (4) NOT claimed by a theorem (run-time comparison with the model and a brute-force "
+                   "oracle only): Selection Sort / Group / GetLowerBound / GetUpperBound (in the model these are the specification of std::sort / binary search itself), and the dup-reporting clause 'first "
+                   "conflicting index' for the single-column update. Hypotheses of the theorems: new raws have an identity and an address no current row "
+                   "has, index columns are pairwise distinct, updated column exists in the row, AccumulateHashCode is order-independent (AccComm) for "
+                   "queries by key tuple, copies import rows that differ pairwise on every unique index (proved for rows taken from a table). "
                    "Trusted: Lean kernel + 3 standard axioms, extractor, harness (g++, -fno-access-control). Modelled not verified: the index "
                    "hash tables themselves (C01/C13/C08 contracts), std::lower_bound / RadixSorter / std::sort (specifications), raw memory of rows."),
     "modules": ["Momo.Props.C07"],
-    "theorems": ["Momo.Table.C07_select_eq_scan", "Momo.Table.C07_select_any_index", "Momo.Table.C07_choosePath_valid", "Momo.Table.C07_findByUnique_eq_scan", "Momo.Table.C07_findByMulti_eq_scan", "Momo.Table.C07_add", "Momo.Table.C07_add_ok_iff", "Momo.Table.C07_clear", "Momo.Table.C07_insert", "Momo.Table.C07_extract", "Momo.Table.C07_extractRef", "Momo.Table.C07_removeRows", "Momo.Table.C07_removePred", "Momo.Table.C07_assign", "Momo.Table.C07_copy", "Momo.Table.C07_rows_distinct", "Momo.Table.C07_createUnique", "Momo.Table.C07_createMulti", "Momo.Table.C07_numbers_eq_positions", "Momo.Table.C07_updateCol_F9_witness"],
+    "theorems": ["Momo.Table.C07_select_eq_scan", "Momo.Table.C07_select_any_index", "Momo.Table.C07_choosePath_valid", "Momo.Table.C07_findByUnique_eq_scan", "Momo.Table.C07_findByMulti_eq_scan", "Momo.Table.C07_project", "Momo.Table.C07_projectDistinct", "Momo.Table.C07_add", "Momo.Table.C07_add_ok_iff", "Momo.Table.C07_clear", "Momo.Table.C07_insert", "Momo.Table.C07_extract", "Momo.Table.C07_extractRef", "Momo.Table.C07_removeRows", "Momo.Table.C07_removePred", "Momo.Table.C07_assign", "Momo.Table.C07_copy", "Momo.Table.C07_rows_distinct", "Momo.Table.C07_createUnique", "Momo.Table.C07_createMulti", "Momo.Table.C07_numbers_eq_positions", "Momo.Table.C07_update", "Momo.Table.C07_updateCol_partial", "Momo.Table.C07_updateCol_F9_witness", "Momo.Table.C07_history_partial", "Momo.Table.C07_step_inv", "Momo.Table.C07_history_F9"],
     "harnesses": [
         {"name": "c07_dyn_nonum", "src": "c07_table.cpp", "flags": ["-DVF_PART=0", "-g0"]},
         {"name": "c07_dyn_num", "src": "c07_table.cpp", "flags": ["-DVF_PART=1", "-g0"]},
